@@ -1,4 +1,5 @@
 import CJ.Lemmas.HalfPipe
+import CJ.Gen.RelayShape
 /-!
 # C05 — the proxy relays byte streams faithfully and always tears both sides down
 
@@ -9,6 +10,11 @@ Property theorems only.  `halfPipe up st s` is the model of one direction of the
 over the script — hence over all chunkings of the stream, all positions and kinds of fault on either
 connection (alone, in pairs, any number), and over whatever the other direction of the proxy does to
 the two connections (its effect on this direction is some sequence of call results, i.e. a script).
+
+Tear-down is not assumed: `halfPipe` is the interpretation of a *statement list with a defer stack*
+(`exec`), and which deferred functions an exit runs follows from where the `defer` statements stand.
+`CJ.Gen.halfPipeStmts` / `CJ.Gen.proxyStmts` are the top-level statements of the two Go functions,
+regenerated from the source on every run (tie 1).
 -/
 namespace CJ.Props.C05
 open CJ.HalfPipe
@@ -16,16 +22,16 @@ open CJ.HalfPipe
 /-- **Fidelity (no loss of order, no duplication, no invention).**  What the destination accepted is a
 prefix of the concatenation of what the source returned, for every script. -/
 theorem delivered_is_prefix (up : Bool) (st : Stats) (s : Script) :
-    (halfPipe up st s).delivered <+: allBytes s.reads :=
-  run_prefix s
+    (halfPipe up st s).delivered <+: allBytes s.reads := by
+  rw [halfPipe_delivered]; exact run_prefix s
 
 /-- **Completeness up to the first fault.**  If no write fails or falls short and every deadline call
 succeeds (directly, or through the `SetReadDeadline` fallback of a connection that answers ENOTSUP), *everything* read is delivered: all bytes of all reads up to and including the first read that
 reported an error or EOF — the bytes that arrived together with that indication included. -/
 theorem delivered_complete_until_fault (up : Bool) (st : Stats) (s : Script)
     (hw : noWriteFault s.writes) (hd : allDlOk s.dls) (hc : conforming s.reads) :
-    (halfPipe up st s).delivered = allBytes (consumed s.reads) :=
-  run_complete s hw hd hc
+    (halfPipe up st s).delivered = allBytes (consumed s.reads) := by
+  rw [halfPipe_delivered]; exact run_complete s hw hd hc
 
 /-- The special case the unrepaired code got wrong: error-free reads `pre`, then a read that returns
 bytes `bs` *together with* an error `e` (EOF, reset, timeout, …).  All of `pre` and all of `bs` arrive. -/
@@ -57,32 +63,87 @@ theorem delivered_chunking_independent (up up' : Bool) (st st' : Stats) (s s' : 
 /-- **Reported byte count = bytes actually delivered**, for every script (short writes and writes that
 return `n > 0` with an error included). -/
 theorem stats_equal_delivered (up : Bool) (st : Stats) (s : Script) :
-    (halfPipe up st s).counted = (halfPipe up st s).delivered.length :=
-  run_counted s
+    (halfPipe up st s).counted = (halfPipe up st s).delivered.length := by
+  rw [halfPipe_counted, halfPipe_delivered]; exact run_counted s
+
+/-- **No loss up to the point where one side fails**, for *every* script (faulty ones included).  With
+`n` the number of `Read` calls the direction made: if no write failed, everything those `n` reads
+returned was delivered — whether the direction was ended by EOF, a read error, or a failing
+`SetDeadline` at any position; if a write failed or fell short, it was the write of the `n`-th read's
+bytes: everything the first `n-1` reads returned was delivered, followed by a prefix of the `n`-th. -/
+theorem no_loss_until_failure (up : Bool) (st : Stats) (s : Script) (hc : conforming s.reads) :
+    ((run s).writeErr = none →
+      (halfPipe up st s).delivered = allBytes (s.reads.take (nReads (halfPipe up st s).trace))) ∧
+    (∀ e, (run s).writeErr = some e → ∃ k b part, nReads (halfPipe up st s).trace = k + 1 ∧
+      s.reads[k]? = some b ∧ part <+: b.bytes ∧
+      (halfPipe up st s).delivered = allBytes (s.reads.take k) ++ part) := by
+  simpa [Lower] using run_Lower s hc
+
+/-- a failing `SetDeadline` loses nothing that was read (special case of `no_loss_until_failure`) -/
+theorem deadline_failure_loses_nothing (up : Bool) (st : Stats) (s : Script) (hc : conforming s.reads)
+    (hw : (run s).writeErr = none) :
+    (halfPipe up st s).delivered = allBytes (s.reads.take (nReads (halfPipe up st s).trace)) :=
+  (no_loss_until_failure up st s hc).1 hw
+
+/-! ### tear-down -/
+
+/-- **Every exit of a body whose `defer`s stand above its first exit runs every deferred function**,
+last registered first: for every statement list, every script, every state of the deadline script —
+through whichever `return` (failed initial or refreshed deadline, a `return` the model does not even
+interpret) or `break` (read error, EOF, write error, short write) the body is left. -/
+theorem defers_first_tears_down (prog : List Stmt) (h : defersFirst prog = true) (s : Script)
+    (ds : List DlRes) (f : Option Bool) : (exec s prog [] ds f).ran = fullTeardown prog :=
+  exec_ran s prog h ds f
+
+/-- the hypothesis is needed: with the closing `defer` registered *below* the initial deadline calls, a
+failing first `SetDeadline` leaves both connections open (the wait group is still released) -/
+theorem late_defer_skips_teardown :
+    (exec { reads := [], writes := [], dls := [.fail] }
+      [.deferActs [.duration, .completed, .wgDone], .arm true, .retIfErr true, .arm false, .retIfErr true,
+       .deferActs [.spawnCloseSrc, .closeDst], .loop] [] [.fail] none).ran = [.duration, .completed, .wgDone] := by
+  decide
+
+/-- **Tie 1**: in the source under check every `defer` of `halfPipe` stands above its first exit … -/
+theorem halfpipe_defers_first : defersFirst CJ.Gen.halfPipeStmts = true := by decide
+
+/-- … so every exit of the function as written runs: close the source (on its own goroutine), close the
+destination, complete the tunnel statistics, release the wait group — in this order -/
+theorem halfpipe_source_teardown (s : Script) (ds : List DlRes) (f : Option Bool) :
+    (exec s CJ.Gen.halfPipeStmts [] ds f).ran = [.spawnCloseSrc, .closeDst, .duration, .completed, .wgDone] := by
+  rw [exec_ran s _ halfpipe_defers_first]; decide
+
+/-- … and its statement skeleton is the one the executable model (and hence the correspondence run) uses -/
+theorem halfpipe_skeleton_matches : skeleton CJ.Gen.halfPipeStmts = canonical := by decide
 
 /-- **Tear-down on every exit.**  Whatever ends the direction — EOF, reset, timeout, write error, short
-write, a failing `SetDeadline`, a failing `Close` — both connections are closed exactly once by it, the
-tunnel statistics are completed once and the wait group is released exactly once. -/
+write, a failing `SetDeadline`, a failing `Close` — the exit runs exactly the deferred actions, in order. -/
+theorem teardown_on_every_exit (up : Bool) (st : Stats) (s : Script) :
+    (halfPipe up st s).teardown = [.spawnCloseSrc, .closeDst, .duration, .completed, .wgDone] :=
+  halfPipe_teardown up st s
+
+/-- hence both connections are closed exactly once by it, the tunnel statistics are completed once and
+the wait group is released exactly once -/
 theorem both_closed_on_every_exit (up : Bool) (st : Stats) (s : Script) :
     (halfPipe up st s).closedSrc = 1 ∧ (halfPipe up st s).closedDst = 1 ∧
       (halfPipe up st s).done = 1 ∧ (halfPipe up st s).completed = 1 :=
-  ⟨rfl, rfl, rfl, rfl⟩
+  halfPipe_counts up st s
 
-theorem wg_done_once (up : Bool) (st : Stats) (s : Script) : (halfPipe up st s).done = 1 := rfl
+theorem wg_done_once (up : Bool) (st : Stats) (s : Script) : (halfPipe up st s).done = 1 :=
+  halfPipe_done up st s
 
 /-- **A direction stops at its first failing call.**  Every call but the last succeeded, except that a
 read which returned an error may be followed by exactly one write (of the bytes that came with it).
 Since a closed connection fails every call, a direction whose connections were closed by the other
 direction makes at most two more calls before it tears down as well. -/
 theorem stops_at_first_failure (up : Bool) (st : Stats) (s : Script) :
-    stopsAtFailure (halfPipe up st s).trace :=
-  run_stops s
+    stopsAtFailure (halfPipe up st s).trace := by
+  rw [halfPipe_trace]; exact run_stops s
 
 /-- **Termination with a bound**: the number of calls made on the two connections is at most four per
 scripted read plus three (initial deadlines and the read that finds the script exhausted). -/
 theorem halfpipe_calls_bounded (up : Bool) (st : Stats) (s : Script) :
-    (halfPipe up st s).trace.length ≤ 4 * s.reads.length + 3 :=
-  run_trace_bound s
+    (halfPipe up st s).trace.length ≤ 4 * s.reads.length + 3 := by
+  rw [halfPipe_trace]; exact run_trace_bound s
 
 /-- the asynchronous close of the source and the synchronous close of the destination may run in either
 order: the recorded error texts are the same -/
@@ -90,10 +151,13 @@ theorem close_order_irrelevant (up : Bool) (a b : Option Err) (st : Stats) :
     closeConn up true a (closeConn up false b st) = closeConn up false b (closeConn up true a st) :=
   closeConn_comm up a b st
 
-/-- a failing `SetDeadline` ends the direction (the deadline failure is the last call) and is logged once -/
+/-- **every failing `SetDeadline` is logged, once, and nothing else is**: the number of "error setting
+deadline" lines is the number of failed deadline calls in the trace, which is at most one (the failure
+ends the direction, `stops_at_first_failure`) -/
 theorem deadline_failure_logged_once (up : Bool) (st : Stats) (s : Script) :
-    (halfPipe up st s).logs ≤ 1 :=
-  halfPipe_logs_le up st s
+    (halfPipe up st s).logs = ((halfPipe up st s).trace.filter Ev.failedDl).length ∧ (halfPipe up st s).logs ≤ 1 := by
+  rw [halfPipe_logs, halfPipe_trace, run_failedDl]
+  exact ⟨rfl, by split <;> omega⟩
 
 /-! ### `Proxy` -/
 
@@ -114,8 +178,17 @@ theorem gauge_balanced (i : ProxyIn) : (proxy i).gaugeAdds = (proxy i).gaugeRemo
 /-- when the relay ran, both connections were closed (the client by both directions, the covert by
 both directions and once more by `Proxy` itself) -/
 theorem proxy_closes_both (i : ProxyIn) (h : (proxy i).started = true) :
-    2 ≤ (proxy i).clientCloses ∧ 2 ≤ (proxy i).covertCloses :=
+    (proxy i).clientCloses = 2 ∧ (proxy i).covertCloses = 3 :=
   proxy_closes i h
+
+/-- the covert connection is closed on every path on which it was opened (PROXY-header failure included) -/
+theorem proxy_covert_closed (i : ProxyIn) (hd : i.dialErr = none) : 1 ≤ (proxy i).covertCloses :=
+  CJ.HalfPipe.proxy_covert_closed i hd
+
+/-- **Tie 1**: the top-level statements of `Proxy` in the source under check — dial, return on a dial
+error, `defer covertConn.Close()`, PROXY header, `wg.Add(2)`, gauge +1, the two directions, `wg.Wait()`,
+gauge −1, print — are the ones the model interprets, in this order -/
+theorem proxy_skeleton_matches : skeletonP CJ.Gen.proxyStmts = canonicalP := by decide
 
 /-- **The totals `Proxy` reports are the bytes delivered in each direction.** -/
 theorem proxy_counts_equal_delivered (i : ProxyIn) (u d : Out)
@@ -165,6 +238,25 @@ example : (halfPipe true {} ex3).delivered = [1, 2, 3] ∧ (halfPipe true {} ex3
 /-- … and when the fallback fails as well, the direction ends there, logged once, both sides closed -/
 example : (halfPipe true {} { ex3 with dls := [.unsupported false] }).trace = [.dl true false true] ∧
     (halfPipe true {} { ex3 with dls := [.unsupported false] }).logs = 1 := by decide
+
+/-- a write that accepts one byte and then reports a reset, in the middle of the stream: the first read
+arrives whole, the second up to the fault, the third is never read (`no_loss_until_failure`, second part) -/
+def ex4 : Script :=
+  { reads := [⟨[1, 2, 3], none⟩, ⟨[4, 5, 6], none⟩, ⟨[7], none⟩], writes := [⟨bufLen, none⟩, ⟨1, some .reset⟩], dls := [] }
+
+example : (run ex4).writeErr = some .reset ∧ nReads (halfPipe true {} ex4).trace = 2 ∧
+    (halfPipe true {} ex4).delivered = [1, 2, 3, 4] ∧ (halfPipe true {} ex4).exit = .writeErr := by decide
+
+/-- the deadline refresh after the second read fails: both reads arrived (first part), the exit is the
+`return` inside the loop, and the tear-down is complete -/
+example : (run { ex4 with writes := [], dls := [.ok, .ok, .ok, .ok, .fail] }).writeErr = none ∧
+    (halfPipe true {} { ex4 with writes := [], dls := [.ok, .ok, .ok, .ok, .fail] }).delivered = [1, 2, 3, 4, 5, 6] ∧
+    (halfPipe true {} { ex4 with writes := [], dls := [.ok, .ok, .ok, .ok, .fail] }).exit = .dlRefresh true ∧
+    (halfPipe true {} { ex4 with writes := [], dls := [.ok, .ok, .ok, .ok, .fail] }).closedDst = 1 := by decide
+
+/-- the PROXY-header failure path closes the covert connection it opened and starts nothing -/
+example : (proxy { dialErr := none, header := some false, up := ex1, down := ex2 }).covertCloses = 1 ∧
+    (proxy { dialErr := none, header := some false, up := ex1, down := ex2 }).started = false := by decide
 
 example : dialSane { dialErr := some .refused, header := none, up := ex1, down := ex2 } := by
   intro e he; cases he; exact ⟨"refused", rfl, by decide⟩
